@@ -12,6 +12,7 @@ import GeoVerif.Driver.Valid
 import GeoVerif.Driver.UiFile
 import GeoVerif.Driver.Depths
 import GeoVerif.Driver.Records
+import GeoVerif.Driver.Heap
 open Lean GeoVerif.Driver
 
 structure DSt where
@@ -38,6 +39,7 @@ def stepLine (st : DSt) (line : String) : DSt × String :=
     | "valid" => (st, (ValidD.handle j).compress)
     | "uifile" => (st, (UiFileD.handle j).compress)
     | "depths" => (st, (DepthsD.handle j).compress)
+    | "heap" => (st, (HeapD.handle j).compress)
     | "records" => let (s, o) := RecordsD.handle st.recs j; ({ st with recs := s }, o.compress)
     | "life" => let (s, o) := LifeD.handle st.life j; ({ st with life := s }, o.compress)
     | _ => (st, "\"bad-model\"")
